@@ -185,6 +185,9 @@ def evaluate(case):
             except Inconclusive as e:
                 classes.add((lang, 'inconclusive', str(e)[:40]))
                 continue
+            except Exception as e:  # noqa: BLE001 - the interpreter met something it has no rule for (never on the unchanged tree)
+                add('program cannot be interpreted', f'{type(e).__name__}: {e}\n{code}')
+                continue
             # the example statement
             try:
                 if info is not None and 0 <= info[1] - origin < n:
@@ -198,6 +201,8 @@ def evaluate(case):
                 add('example statement does not bind the announced subarray', f'{e}\n{code[-400:]}')
             except Inconclusive as e:
                 classes.add((lang, 'inconclusive', str(e)[:40]))
+            except Exception as e:  # noqa: BLE001
+                add('example statement does not bind the announced subarray', f'{type(e).__name__}: {e}\n{code[-400:]}')
             # the accessor, for every k
             bad = 0
             for j in range(n):
@@ -209,6 +214,8 @@ def evaluate(case):
                 except Inconclusive as e:
                     classes.add((lang, 'inconclusive', str(e)[:40]))
                     continue
+                except Exception as e:  # noqa: BLE001
+                    msg = f'accessor cannot be interpreted: {type(e).__name__}: {e}'
                 if msg:
                     bad += 1
                     kind = 'zero-length' if subs[j].shape[0] == 0 else 'non-empty'
